@@ -659,11 +659,13 @@ class _MissingImportFinder:
         self.visit(node.targets)
         self._visit__all__(node)
 
-    def _visit__all__(self, node):
+    def _visit__all__(self, node, targets=None):
         if self._in_FunctionDef:
             return
-        if (len(node.targets) == 1 and isinstance(node.targets[0], ast.Name)
-            and node.targets[0].id == '__all__'):
+        if targets is None:
+            targets = node.targets
+        if (len(targets) == 1 and isinstance(targets[0], ast.Name)
+            and targets[0].id == '__all__'):
             if not isinstance(node.value, (ast.List, ast.Tuple)):
                 logger.warning("Don't know how to handle __all__ as (%s)" % node.value)
                 return
@@ -694,6 +696,9 @@ class _MissingImportFinder:
             self.visit(node.value)
         self.visit(node.annotation)
         self.visit(node.target)
+        if node.value is not None:
+            # ``__all__: list = [...]`` exports names like a plain assignment.
+            self._visit__all__(node, targets=[node.target])
 
     def visit_NamedExpr(self, node) -> None:
         # ``(x := v)`` evaluates ``v`` before storing ``x``.
